@@ -264,7 +264,7 @@ func c20Random(c *core.Ctx, k *core.Case) {
 	var liveGuess []int64 // workload-side memory of ids it got, to aim frees at live ids
 	mode := r.Intn(3)     // 0 balanced, 1 fill-heavy, 2 churn near full
 	wbase := int64(0)
-	if rng > 1<<20 {
+	if rng > 1<<20 || max > 1<<62 {
 		wbase = []int64{0, 3, 1 << 16, 1<<32 - 4, 1 << 32, rng - 10, rng - 4, rng - 1}[r.Intn(8)] % rng
 		if wbase < 0 {
 			wbase = 0
@@ -279,8 +279,8 @@ func c20Random(c *core.Ctx, k *core.Case) {
 			o = c20Op{kind: 0}
 		case x < allocBias+1:
 			var a, b int64
-			if rng > 1<<20 {
-				// a wide range: everything happens in a window of a few identifiers, so that
+			if rng > 1<<20 || max > 1<<62 {
+				// a wide range (or one that ends at the top of int64): everything happens in a window of a few identifiers, so that
 				// starts collide with live slots and with the scan offset
 				a = wbase + int64(r.Intn(10))
 				b = a + int64(r.Intn(6))
@@ -550,6 +550,12 @@ func init() {
 						min = -[]int64{1, 7, 1 << 16, 1 << 31}[c.R.Intn(4)] // a range that straddles zero
 					}
 					k := &core.Case{Oracle: "random", Target: "uePolicyContainer.IDGenerator", I: []int64{min, min + width - 1, int64(c.R.Uint64() >> 1), int64(c.R.Range(6, 60)), int64(i % 2)}}
+					if i%6 == 5 {
+						// ranges that end at the top of int64: four identifiers, 64, and almost all positive ones
+						const top = int64(^uint64(0) >> 1)
+						k.I[0], k.I[1] = []int64{top - 3, top - 63, 1, top - 1<<40}[c.R.Intn(4)], top
+						c.Cover("range_position", "ending at MaxInt64")
+					}
 					c.Do(k)
 					c.NonTrivial(k.Hash())
 					c.Cover("range_width", "above 2^32")
